@@ -5,7 +5,8 @@
 (*                                                                         *)
 (* An error value is a finite tree, written as a nested tuple:             *)
 (*   <<"leaf", k>>      a sentinel: one of heimdall's error kinds, or a    *)
-(*                      foreign error ("foreign")                          *)
+(*                      foreign error ("foreign"; "canceled" =             *)
+(*                      context.Canceled, as left by an aborted call)      *)
 (*   <<"redir", code>>  *heimdall.RedirectError with that status code      *)
 (*   <<"chain", es>>    errorchain.New(es[1]).CausedBy(es[2])...           *)
 (*   <<"wrap", e>>      fmt.Errorf("...%w", e)                             *)
@@ -21,7 +22,7 @@
 (***************************************************************************)
 EXTENDS Naturals, Sequences, FiniteSets
 
-Kinds == {"authn", "authz", "comm", "timeout", "arg", "norule", "internal", "config", "foreign"}
+Kinds == {"authn", "authz", "comm", "timeout", "arg", "norule", "internal", "config", "foreign", "canceled"}
 
 RECURSIVE Is(_, _)
 Is(e, k) ==
